@@ -1,4 +1,4 @@
-import GB.C04.Proofs
+import GB.C04.Frame
 /-
   C04 — transcoded requests populate the gRPC message per the http.proto binding rules.
 
@@ -141,3 +141,109 @@ example :
     transcode exSchema exNoOracle exRoot ⟨[122]⟩ .none ⟨[], []⟩ = .error .internal
     ∧ BadBinding exSchema exRoot ⟨[122]⟩ := by
   decide
+
+/-! ## the per-field rule (partial: fields outside oneofs, keys that do not overlap)
+
+  Full statement aimed at (DESIGN 5.4, `C04_refines`): for ALL schemas/bindings/requests the populated
+  leaves of `transcode …` are exactly those of `GB.C04.expect …` (GB/C04/Spec.lean): path variable, else
+  body, else unfiltered query parameter, else nothing.  `./check` tests exactly that equation on every
+  generated case.  Proved here: the three clauses of the rule as theorems about `transcode`, under the
+  side conditions `PathsAvoid` / `QueryAvoids` (every OTHER applied key names a field outside any oneof
+  whose path neither contains nor lies below the field in question).  Missing for the unrestricted
+  statement: keys that overlap each other (the result then depends on Go map iteration order), `Mutable`
+  clearing oneof siblings while walking a path, and list/map/message-typed leaves for the value clauses.
+-/
+
+/-- Clause 1 — a path variable wins: whatever the body decoded to and whatever earlier path variables
+    did, a path variable naming a singular scalar/enum field determines that field of the result. -/
+theorem C04_path_variable_wins_partial (sch : Schema) (orc : Oracle) (root : MsgDesc) (bd : Binding) (dec : Dec)
+    (pp1 pp2 : List (Bytes × Bytes)) (k t : Bytes) (q : List (Bytes × List Bytes)) (m : Msg)
+    (p : Path) (fs : List Field) (f : Field) (v : Val)
+    (hres : resolveGo sch false root (splitDot k) = some (p, fs)) (hlast : fs.getLast? = some f)
+    (hsingle : f.card = .single) (hscalar : ∀ r, f.kind ≠ .message r)
+    (hparse : parseScalar sch orc f.kind t = .ok v)
+    (hpp : PathsAvoid sch root p pp2)
+    (hq : QueryAvoids sch root (filterSeqs bd (pp1 ++ (k, t) :: pp2)) p q)
+    (h : transcode sch orc root bd dec ⟨pp1 ++ (k, t) :: pp2, q⟩ = .ok m) :
+    Msg.get m p = if !f.presence && v.isZero then none else some (.single v) := by
+  unfold transcode transcodeWith at h
+  simp only at h
+  split at h
+  · simp at h
+  · rename_i m0 _
+    split at h
+    · simp at h
+    · rename_i m1 h1
+      obtain ⟨ma, _, h3⟩ := pathStage_append h1
+      simp only [pathStage] at h3
+      split at h3
+      · simp at h3
+      · rename_i mb hb
+        have hv := populateGo_value (pre := []) hres hlast hsingle hscalar hparse (populate_ok hb)
+        have hf := pathStage_frame hpp h3
+        simp only [List.nil_append] at hv
+        split at h
+        · simp at h; subst h; rw [hf, hv]
+        · rw [queryStage_frame hq h, hf, hv]
+
+/-- Clause 2 — the body's value stays: a field that no path variable and no unfiltered query key
+    touches has exactly the value the body stage gave it (the decoded body, or nothing). -/
+theorem C04_body_kept_partial (sch : Schema) (orc : Oracle) (root : MsgDesc) (bd : Binding) (dec : Dec)
+    (rq : Request) (m0 m : Msg) (P : Path)
+    (hbody : bodyStage sch root bd dec = .ok m0)
+    (hpp : PathsAvoid sch root P rq.pathParams)
+    (hq : QueryAvoids sch root (filterSeqs bd rq.pathParams) P rq.query)
+    (h : transcode sch orc root bd dec rq = .ok m) :
+    Msg.get m P = Msg.get m0 P := by
+  unfold transcode transcodeWith at h
+  simp only [hbody] at h
+  split at h
+  · simp at h
+  · rename_i m1 h1
+    have hf := pathStage_frame hpp h1
+    split at h
+    · simp at h; subst h; exact hf
+    · rw [queryStage_frame hq h, hf]
+
+/-- Clause 3 — an unfiltered query parameter (body ≠ "*") naming a singular scalar/enum field, by proto or
+    JSON name, determines that field when no later key overlaps it. -/
+theorem C04_query_value_partial (sch : Schema) (orc : Oracle) (root : MsgDesc) (bd : Binding) (dec : Dec)
+    (pp : List (Bytes × Bytes)) (q1 q2 : List (Bytes × List Bytes)) (k t : Bytes) (m : Msg)
+    (p : Path) (fs : List Field) (f : Field) (v : Val)
+    (hstar : bd.bodyPath ≠ wildcard)
+    (hnc : covered sch root (filterSeqs bd pp) (k, [t]) = false)
+    (hmk : splitMapKey k = none)
+    (hres : resolveGo sch false root (normalizeFieldPath sch root (splitDot k)) = some (p, fs))
+    (hlast : fs.getLast? = some f) (hsingle : f.card = .single) (hscalar : ∀ r, f.kind ≠ .message r)
+    (hparse : parseScalar sch orc f.kind t = .ok v)
+    (hq : QueryAvoids sch root (filterSeqs bd pp) p q2)
+    (h : transcode sch orc root bd dec ⟨pp, q1 ++ (k, [t]) :: q2⟩ = .ok m) :
+    Msg.get m p = if !f.presence && v.isZero then none else some (.single v) := by
+  unfold transcode transcodeWith at h
+  simp only at h
+  split at h
+  · simp at h
+  · split at h
+    · simp at h
+    · have hs : shouldParseQuery bd = true := by simp [shouldParseQuery, hstar]
+      simp only [hs, Bool.not_true, Bool.false_eq_true, if_false] at h
+      obtain ⟨ma, _, h3⟩ := queryStage_append h
+      simp only [queryStage] at h3
+      split at h3
+      · simp at h3
+      · rename_i mb hb
+        rw [queryStage_frame hq h3]
+        exact queryOne_value hnc hmk hres hlast hsingle hscalar hparse hb
+
+/-- the side conditions are satisfiable and the clauses say something: message M { int32 a = 1; string b = 2; },
+    body "*" decoded to {a: 1, b: "x"}, path variable a=7 ⟹ a = 7 (clause 1) and b = "x" (clause 2). -/
+example :
+    ∃ m, transcode exSchema exNoOracle exRoot ⟨wildcard⟩ (.ok [([[97]], .single (.int 1)), ([[98]], .single (.bytes [120]))]) ⟨[([97], [55])], []⟩ = .ok m
+      ∧ Msg.get m [[97]] = some (.single (.int 7)) ∧ Msg.get m [[98]] = some (.single (.bytes [120])) := by
+  refine ⟨_, rfl, ?_, ?_⟩ <;> decide
+
+example : PathsAvoid exSchema exRoot [[98]] [([97], [55])] := by
+  intro kv hkv
+  simp at hkv
+  subst hkv
+  exact ⟨[[97]], [exFa], by decide, by decide, by decide⟩
